@@ -18,3 +18,7 @@ func queryEncode(param string, m restlicodec.Marshaler) (string, error) {
 func queryReadRecord(q restlicodec.QueryParamsReader, required []string, f restlicodec.MapReader) error {
 	return q.ReadRecord(restlicodec.RequiredFields(required), f)
 }
+
+func readRec(r restlicodec.Reader, required []string, f restlicodec.MapReader) error {
+	return r.ReadRecord(restlicodec.RequiredFields(required), f)
+}
